@@ -164,7 +164,7 @@ impl Property for C13 {
         vec!["hash seeds are sampled by repetition, not enumerated".into(), "layout expiry far in the future".into()]
     }
     fn cases(tier: Tier) -> u64 {
-        tier.pick(1_500, 40_000)
+        tier.pick(2_500, 40_000)
     }
     fn strategy(_tier: Tier) -> BoxedStrategy<Spec> {
         let cfg = Cfg { min_steps: 1, max_steps: 3, max_owners: 1, ..Cfg::basic() };
